@@ -207,13 +207,21 @@ PROPS = {
         "streams": [
             {"stream": "fmt", "families": ALL_FAMILIES + ",mlsfam", "quick": 7000, "thorough": 30000,
              "binding": ["pre", "wc", "out", "*"], "args": {"oracles": "c09"}},
+            # the closed model against the real formatter under lf and crlf configurations; the driver tallies how often
+            # the premises of C09_format_full_crlf_config hold (info_c09)
+            {"stream": "full", "name": "whole", "families": "seeds_sample,grammar,layout,marked,mlsfam,mlsshift,regions", "quick": 3000, "thorough": 30000, "binding": ["out", "*"]},
         ],
         "oracle_prefixes": ["c09", "glue"],
         "abnormal_binding": False,
         "explanation": "recon_crlf_subst: for fixed counters the crlf rendering is the lf rendering with terminators substituted "
-                       "(tokens emitted verbatim must be line-break free: info_nn); emitted_breaks_are_nl; fmtdata_crlf. That the "
-                       "wrapper's decisions do not depend on the newline string is checked by the lf/crlf oracle on every case.",
-        "assumptions": ["WrapDeterministic: wrapper decisions independent of the newline string (metamorphic oracle, not a theorem)"],
+                       "(tokens emitted verbatim must be line-break free: info_nn); emitted_breaks_are_nl; fmtdata_crlf. "
+                       "C09_format_full_crlf_config: for the closed model of the whole formatter (search inside) the crlf run is the lf run "
+                       "with every terminator substituted, under three decidable side conditions computed from the lf run (crlfOk: literals "
+                       "end in a quote; both runs rewrite the same literals; nothing emitted verbatim holds a line break) - the search reads "
+                       "the configuration through Config.searchCfg (no line ending in it) and tokens through FTok.sview (kind, last-line "
+                       "length) by construction; the driver tallies crlfOk on every case of the full stream (info_c09). The third clause "
+                       "(LF vs CRLF input) is decided by the c09 oracle.",
+        "assumptions": ["crlfOk (decidable, tallied per case); input-ending clause: metamorphic oracle, not a theorem"],
     },
     "C10": {
         "level": "proof",
